@@ -32,20 +32,28 @@ impl Monitor for C11 {
 		"C11"
 	}
 	fn rule(&self) -> String {
-		"C01's well-formed replay space (a sixth of the generated files additionally carry one unknown event with a 16-64 KiB payload, or junk after Game End inside the raw element); each file is followed by random trailing garbage after its closing brace (which must NOT be hashed) and read with compute_hash through the instrumented source under fragmentation schedules {whole, 1-byte, fixed 2/3/7/64/4096 and two drawn from {15,16,127..129,255..257,511,512,1000,1024,8191..8193,65536}, random 1..5, random 1..300, whole reads with every 2nd/3rd/7th/50th call answered by ErrorKind::Interrupted, every two-piece split (every 3rd file <= 3 KB in quick; every 2nd file <= 12 KB in thorough; 64 random splits otherwise)} x skip-frames {off, on (finished files only)}. Oracle: hash == 'xxh3:' + 16 lowercase hex digits of the one-shot xxh3_64 over exactly the bytes the counting source delivered, which must equal the file through its closing brace; identical across schedules and skip on/off; None when hashing is not requested; unchanged by a .slpp round trip. Every third hashed read is preceded on the same thread by a hashed read of a truncated copy (which fails part-way); its bytes must not reach the next digest. One evaluation = one read. distinct = workload classes x schedule.".into()
+		"C01's well-formed replay space (a sixth of the generated files additionally carry one unknown event with a 16-64 KiB payload, or junk after Game End inside the raw element); each file is followed by random trailing garbage after its closing brace (which must NOT be hashed) and read with compute_hash through the instrumented source under fragmentation schedules {whole, 1-byte, fixed 2/3/7/64/4096 and two drawn from {15,16,127..129,255..257,511,512,1000,1024,8191..8193,65536}, random 1..5, random 1..300, whole reads with every 2nd/3rd/7th/50th call answered by ErrorKind::Interrupted, every two-piece split (every 3rd file <= 3 KB in quick; every 2nd file <= 12 KB in thorough; 64 random splits otherwise)} x skip-frames {off, on (finished files only)}. Oracle: hash == 'xxh3:' + 16 lowercase hex digits of the one-shot xxh3_64 over exactly the bytes the counting source delivered, which must equal the file through its closing brace; identical across schedules and skip on/off; None when hashing is not requested; unchanged by a .slpp round trip. 48 (thorough 384) files place the first/second Game End or the metadata 0..7 bytes before a multiple of 4/8/64 KiB of file offset. Every third hashed read is preceded on the same thread by a hashed read of a truncated copy (which fails part-way); its bytes must not reach the next digest. One evaluation = one read. distinct = workload classes x schedule.".into()
 	}
 	fn assumptions(&self) -> Vec<String> {
 		vec!["the XXH3-64 digest function (xxhash-rust one-shot API) is trusted; peppi uses the streaming API".into()]
 	}
 	fn n_cases(&self, ctx: &Ctx) -> usize {
-		self.fixtures.len() + ctx.tier.pick(&self.quick, &self.thorough).len()
+		self.fixtures.len() + ctx.tier.pick(&self.quick, &self.thorough).len() + ctx.tier.pick(48, 384)
 	}
 	fn min_classes(&self, tier: Tier) -> usize {
 		tier.pick(100, 200)
 	}
 	fn run(&self, ctx: &Ctx, idx: usize) -> CaseOut {
 		let mut out = CaseOut::default();
-		let Some((desc, bytes, truth)) = case_input(ctx.tier.pick(&self.quick, &self.thorough), &self.fixtures, ctx.seed, idx, &mut out) else { return out };
+		let n_main = self.fixtures.len() + ctx.tier.pick(&self.quick, &self.thorough).len();
+		let input = if idx >= n_main {
+			// Game End / second Game End / metadata starting 0..7 bytes before a multiple of 4/8/64 KiB
+			// of file offset (where a buffer inside the reader would be refilled); every 4th k
+			common::boundary_case((idx - n_main) * 4 + (idx % 4), ctx.seed, &mut out)
+		} else {
+			case_input(ctx.tier.pick(&self.quick, &self.thorough), &self.fixtures, ctx.seed, idx, &mut out)
+		};
+		let Some((desc, bytes, truth)) = input else { return out };
 		// a sixth of the generated files are accepted-but-irregular: one large unknown event (a
 		// single payload of 16 KiB .. 64 KiB) or junk after Game End inside the raw element; the hash
 		// must still be the digest of exactly the bytes consumed
